@@ -39,12 +39,16 @@ class IterFamily(Family):
             a, b = g.window()
             rev = rng.random() < 0.3 and b is not None
             sched = [rng.random() < 0.5 for _ in range(40)]
-            yield dict(tree=t, q=[(a, b, rev)], sched=sched)
+            case = dict(tree=t, q=[(a, b, rev)], sched=sched)
+            if rng.random() < 0.15:
+                from .slicefam import with_context
+                case = with_context(g, rng, case)      # ... after having been composed further and evaluated there
+            yield case
 
     def run_impl(self, case):
         (a, b, rev), = case["q"]
         try:
-            tl = X.build(case["tree"])
+            tl = X._focus(case["tree"], None, case.get("ctx"), case.get("warm"))
             sm = X.srcmap_of(case["tree"])
             sl = slice(a, b, -1 if rev else None)
             itA, itB = iter(tl[sl]), iter(tl[sl])
@@ -77,10 +81,16 @@ class IterFamily(Family):
                 f"{X.coq_out(obs[0])} {X.coq_out(obs[1])} {X.coq_out(obs[2])})")
 
     def shrink_candidates(self, case):
+        if case.get("ctx") is not None:
+            yield {k: v for k, v in case.items() if k not in ("ctx", "warm")}
+            return
         for t2 in X.shrink_tree(case["tree"]):
             yield dict(case, tree=t2)
 
     def describe(self, case):
+        if case.get("ctx") is not None:
+            return (f"{X.describe(case['tree'])} slice={case['q'][0]} [after evaluating, with shared objects, "
+                    f"{X.describe(case['ctx'])} over {case['warm']}]")
         return f"{X.describe(case['tree'])} slice={case['q'][0]} schedule={''.join('A' if s else 'B' for s in case['sched'][:12])}..."
 
     def nontrivial(self, case, obs):
@@ -95,6 +105,9 @@ def mk_bound(kind, t):
         return t
     if kind[0] == "aware":
         return datetime.fromtimestamp(t, tz=ZoneInfo(kind[1]))
+    if kind[0] == "frac":
+        # an aware datetime with a sub-second part: it is cut to its whole second, whichever bound it is
+        return datetime.fromtimestamp(t, tz=ZoneInfo(kind[1])) + timedelta(microseconds=kind[2])
     if kind[0] == "fixed":
         return datetime.fromtimestamp(t, tz=timezone(timedelta(minutes=kind[1])))
     if kind[0] == "naive":
@@ -113,8 +126,8 @@ def coq_bound(kind, t):
         return "BNone"
     if kind[0] == "int":
         return f"(BInt {cz(t)})"
-    if kind[0] in ("aware", "fixed"):
-        zid = ZONES.index(kind[1]) if kind[0] == "aware" else 100
+    if kind[0] in ("aware", "fixed", "frac"):
+        zid = ZONES.index(kind[1]) if kind[0] in ("aware", "frac") else 100
         return f"(BAware {cz(t)} {zid}%N)"
     if kind[0] == "naive":
         return "BNaive"
@@ -141,11 +154,14 @@ class SpellFamily(Family):
             t = retime(t)
             a = T0 + 3600 * rng.randrange(-2, 6)
             b = a + 3600 * rng.randrange(1, 8)
-            good = [["int"], ["aware", rng.choice(ZONES)], ["aware", rng.choice(ZONES)], ["fixed", rng.choice([-570, 0, 345, 765])]]
+            good = [["int"], ["aware", rng.choice(ZONES)], ["aware", rng.choice(ZONES)], ["fixed", rng.choice([-570, 0, 345, 765])],
+                    ["frac", rng.choice(ZONES), rng.choice([1, 250000, 500000, 999999])]]
             bad = [["naive"], ["float"], ["str"], ["date"]]
             ka = rng.choice(good + good + bad + [["none"]])
             kb = rng.choice(good + good + bad + [["none"]])
             step = rng.choice([None, None, 1, -1, -1, 0, 2, -2, "x"])
+            if rng.random() < 0.25:
+                a, b, ka, kb = b, a, kb, ka             # the two bounds written in descending order
             yield dict(tree=t, a=a, b=b, ka=ka, kb=kb, step=step)
 
     def run_impl(self, case):
